@@ -82,7 +82,11 @@ class Thread(threading.Thread):
 
             tb = ''.join(traceback.format_exception(type(e), e, e.__traceback__))
             tb = f'[{threading.current_thread().name}] ' + tb
-            e.__cause__ = type(e)(tb)
+            try:
+                e.__cause__ = type(e)(tb)
+            except Exception:
+                # The exception class may not be constructible from a single string.
+                e.__cause__ = Exception(tb)
             e.__traceback__ = None
 
             self._future_.set_exception(e)
